@@ -13,6 +13,8 @@ import AllianceProofs.Conserve
 import AllianceProofs.PoolUp
 import AllianceProofs.OtherUsers
 import AllianceProofs.InvCheck
+import AllianceProofs.Settles
+import AllianceProofs.RestartAll
 namespace Alliance
 
 instance (u : Acct) : Decidable (IsUser u) := by unfold IsUser; exact inferInstance
@@ -57,5 +59,44 @@ def theoremCheckMoney (op : Op) (oracleNonneg : Bool) (pre post : World) : List 
          [("theorem.C15", s!"hop_blocked: redelegation of {d} out of {src} by {del} succeeded while an entry into {src} is queued")]
        else []
      | _ => [])
+
+instance (w : World) (v : ValId) : Decidable (ModDelegates w v) := by unfold ModDelegates; exact inferInstance
+
+/-- `Settles.lean` (C13) instantiated on an observed successful user operation: for a started asset, the distribution
+    responses the real module consumed in this step are exactly those of the validators involved that the module account
+    delegates to, in order (claim / delegate / undelegate: the validator; redelegate: source, then destination) -/
+def theoremCheckSettles (op : Op) (wd : List (ValId × Coins)) (pre : World) : List (String × String) :=
+  let started (d : Denom) : Bool := match getAsset pre d with
+    | some a => rewardsStarted a pre.time
+    | none => false
+  let expect (vs : List ValId) : List ValId := vs.filter (fun v => decide (ModDelegates pre v))
+  let check (d : Denom) (vs : List ValId) (all : Bool) : List (String × String) :=
+    if started d && (all || vs.all (fun v => decide (ModDelegates pre v))) then
+      if wd.map (·.1) = expect vs then []
+      else [("theorem.C13", s!"settles: the step consumed the responses of validators {wd.map (·.1)}, the theorem says {expect vs}")]
+    else []
+  match op with
+  | .claim _ v (some d) => check d [v] false
+  | .delegate _ v d _ => check d [v] false
+  | .undelegate _ v d _ => check d [v] false
+  | .redelegate _ s t d _ => check d [s, t] false
+  | _ => []
+
+instance (w : World) : Decidable (Stores w) :=
+  decidable_of_iff
+    (AL.SortedBy natKeyOrder w.assets ∧ (∀ p ∈ w.assets, p.2.denom = p.1) ∧ AL.SortedBy natKeyOrder w.vals ∧
+      AL.SortedBy delKeyOrder w.dels ∧ (∀ p ∈ w.dels, p.1 = (p.2.del, p.2.val, p.2.denom)) ∧ AL.SortedBy delKeyOrder w.snaps)
+    ⟨fun ⟨a, b, c, d, e, f⟩ => ⟨a, b, c, d, e, f⟩,
+     fun h => ⟨h.asorted, h.akeyed, h.vsorted, h.dsorted, h.dkeyed, h.ssorted⟩⟩
+
+instance (w : World) : Decidable (RK w) := by unfold RK; exact inferInstance
+
+/-- `KeepStores.step` / `KeepRK.step` on an observed step (whatever its outcome): the record stores of the real module are
+    sorted and keyed before and after -/
+def theoremCheckStores (pre post : World) : List (String × String) :=
+  (if decide (Stores pre) then (if decide (Stores post) then [] else [("theorem.STORES", "KeepStores.step: a record store is unsorted or a record sits under a foreign key on the post-state")])
+   else [("theorem.STORES", "reach_restart_ok: a record store is unsorted or a record sits under a foreign key on the observed pre-state")]) ++
+  (if decide (RK pre) then (if decide (RK post) then [] else [("theorem.STORES", "KeepRK.step: a redelegation record sits under a foreign key on the post-state")])
+   else [("theorem.STORES", "reach_restart_ok: a redelegation record sits under a foreign key on the observed pre-state")])
 
 end Alliance
